@@ -61,7 +61,11 @@ func mustEngine(repo string) *Engine {
 }
 
 func cmdDump(args []string) int {
-	eng := mustEngine(repoDir)
+	repo := repoDir
+	if len(args) >= 2 && args[0] == "--repo" {
+		repo, args = args[1], args[2:]
+	}
+	eng := mustEngine(repo)
 	defer os.RemoveAll(eng.tmpdir)
 	for _, a := range args {
 		fn := eng.funcs[a]
